@@ -283,10 +283,17 @@ def run_impl(case):
     full = {}
     kept = {}
 
+    acc = set(C14._base_api_problems())
+    acc_seen = set()
+
     def obs(s):
-        o = C14.obs_scheme(s if isinstance(s, type) else type(s), known)
+        c = s if isinstance(s, type) else type(s)
+        o = C14.obs_scheme(c, known)
         if o == ["norestr"]:
             return o
+        if id(c) not in acc_seen:          # accessors, descriptions, is_basic, str: also for registered extras
+            acc_seen.add(id(c))
+            acc.update("%s for %s/%s" % (p, o[0], o[1]) for p in C14._accessor_problems(c))
         d = digest(o[2])
         full.setdefault(d, o[2])
         return [o[0], o[1], d]
@@ -363,7 +370,7 @@ def run_impl(case):
                 typeok[k] = False
             except KeyError:
                 typeok[k] = True
-    return {"steps": steps, "_typeok": typeok}
+    return {"steps": steps, "_typeok": typeok, "_acc": sorted(acc)}
 
 
 def _all_terms(case):
@@ -416,7 +423,7 @@ def _expect(case, names, typeok):
 
 
 def oracle(case, obs):
-    out = []
+    out = [p + " (scheme accessors disagree with the resolved layout)" for p in obs.get("_acc", [])]
     uni = [tuple(p) for p in universe(case)]
     typeok = obs.get("_typeok", {})
     st, base = _expect(case, [], typeok)
